@@ -26,6 +26,12 @@ A client generation is a fresh number (`Gen`); `cancelled` is a ghost log of the
 whose context has been cancelled.  One `ReconWs` per generation, ended by the context cancel; a
 generation has a socket open iff it is live and its destination accepts connections (`downs` is
 the environment: destinations currently refusing); the reconnect machine itself is C19's subject.
+What this model fixes about it (`reconws.Reconnect`: dial, on failure sleep the back-off, look at the
+context, dial again; `Dial` opens the connection under the same context): a generation opens a
+connection only while its context is live -- when it is created and its destination accepts, when its
+destination comes up again, when its connection was dropped (`dials`).  A generation whose context was
+cancelled while it sat in a back-off sleep finds the context done when the sleep ends and returns:
+passing time (`idle`) makes nobody dial, and a destination coming up is dialled by live generations only.
 `Token` and `File` of a rule are not modelled (kept empty by the generator).
 -/
 
@@ -68,6 +74,7 @@ inductive Op where
   | down (dest : Dest)                                  -- destination starts refusing / drops
   | up (dest : Dest)                                    -- destination accepts again
   | drop (dest : Dest)                                  -- destination drops its connections once
+  | idle                                                -- real time passes (pending back-off sleeps end)
 deriving Repr
 
 def gens (m : KV Cl) : List Gen := m.map (fun p => p.2.gen)
@@ -110,6 +117,20 @@ def step (s : St) : Op → St
         { s with downs := s.downs.filter (· != d), accepts := bump s.accepts d (liveOn s d) }
       else s
   | .drop d => if isUp s d then { s with accepts := bump s.accepts d (liveOn s d) } else s
+  | .idle => s
+
+/-- live clients whose destination is `d` -/
+def clientsOn (s : St) (d : Dest) : List Cl := (s.clients.filter (fun p => p.2.dest == d)).map (·.2)
+
+/-- **who dials**: the clients that open a connection to their destination because of `op` in state `s`
+    (one entry per connection accepted by a destination).  The new generation of an accepted add whose
+    destination accepts; the live clients of a destination that comes up again; the live clients of an
+    accepting destination that dropped its connections.  Nobody else, and nobody because time passes. -/
+def dials (s : St) : Op → List Cl
+  | .add id st d => if id = reserved then [] else if isUp s d then [⟨s.nextGen, d, st⟩] else []
+  | .up d => if s.downs.contains d then clientsOn s d else []
+  | .drop d => if isUp s d then clientsOn s d else []
+  | _ => []
 
 def run (ops : List Op) (s : St := {}) : St := ops.foldl step s
 
